@@ -217,10 +217,10 @@ func C06(c *vh.Ctx) {
 		}
 		return
 	}
-	c.Rule("the C04 step space (quick vocabulary; in the quick tier every seventh two-branch list) and the C05 walk space (quick templates; in the quick tier every third spec, sequences up to the bound, limits {0,2,100}, breakpoints) re-executed with deep snapshots (reflect, incl. unexported fields) of state, messages, spec, control and props before/after each call, map-identity checks on every returned state, and two identical calls compared; non-trivial = the step/walk did something other than stay / finish normally.")
+	c.Rule("the C04 step space (quick vocabulary; in the quick tier every twenty-ninth two-branch list) and the C05 walk space (quick templates; in the quick tier every fourth spec, sequences up to the bound, limits {0,2,100}, breakpoints) re-executed with deep snapshots (reflect, incl. unexported fields) of state, messages, spec, control and props before/after each call, map-identity checks on every returned state, and two identical calls compared; non-trivial = the step/walk did something other than stay / finish normally.")
 	forEachStepCase(c, false, func(spec *core.Spec, cs stepCase, li int) {
-		if c.Quick() && li > 200 && li%7 != 0 {
-			return // quick: no / single-branch lists in full, every seventh two-branch list
+		if c.Quick() && len(cs.Spec.Nodes["n0"].Branches) == 2 && li%29 != 0 {
+			return // quick: no / single-branch lists in full, every twenty-ninth two-branch list
 		}
 		c06Step(c, spec, cs)
 		if c.WantSample() && li == 77 && cs.Spec.Nodes["n0"].Action != nil {
@@ -233,8 +233,8 @@ func C06(c *vh.Ctx) {
 	var wi int
 	forEachWalkSpec(c, false, func(as *rstep.ASpec, spec *core.Spec) {
 		wi++
-		if c.Quick() && wi%3 != 0 {
-			return // quick: every third spec of this worker's share
+		if c.Quick() && wi%4 != 0 {
+			return // quick: every fourth spec of this worker's share
 		}
 		for _, st := range walkStarts {
 			for _, sq := range all {
